@@ -86,6 +86,7 @@ pub struct Model<'a> {
     /// ids of definitions produced by expanding the maker macro, and how often such a macro was expanded at top level
     pub generated_ids: std::collections::BTreeSet<usize>,
     pub generated_def_expansions: usize,
+    pub undefs_via: usize,
     pub table: Table,
     /// statistics for non-triviality rules
     pub expansions: usize,
@@ -132,6 +133,7 @@ impl<'a> Model<'a> {
             cond_barriers: Vec::new(),
             generated_ids: Default::default(),
             generated_def_expansions: 0,
+            undefs_via: 0,
             table: initial,
             expansions: 0,
             nested_expansions: 0,
@@ -454,6 +456,19 @@ impl<'a> Model<'a> {
                 self.usage_marks.push((self.out.len(), Label::Macro(origin.clone(), def_id)));
                 self.emit(&s, Label::Macro(origin, def_id));
                 self.emit(ws, Label::File(file));
+            }
+            Item::UndefVia(u, name, ws) => {
+                let (origin, def_id) = match self.table.get(&u.name) {
+                    Some(Some(d)) => (d.origin.clone(), d.def.id),
+                    _ => (DefOrigin::Caller, 0),
+                };
+                let s = self.expand_usage(u, 0).map_err(wrap)?;
+                self.usage_marks.push((self.out.len(), Label::Macro(origin.clone(), def_id)));
+                self.emit(&s, Label::Macro(origin, def_id));
+                self.emit(ws, Label::File(file));
+                // the expansion is an `undef: it takes effect
+                self.table.remove(name);
+                self.undefs_via += 1;
             }
             Item::DefineVia(u, def, ws) => {
                 let (origin, def_id) = match self.table.get(&u.name) {
